@@ -115,6 +115,9 @@ func (c12) Gen(r *sim.Rand, tier string, run uint64) *sim.Scenario {
 		}
 		sc.Ops = ops
 		sc.Cfg["wdm"] = int64(r.Intn(2))
+		if kind == 2 && r.Chance(1, 8) {
+			sc.Cfg["forkinhook"] = 1
+		}
 		if kind == 1 && r.Chance(1, 20) {
 			sc.Cfg["initfrom"] = int64(r.Range(1, 2))
 		}
@@ -691,10 +694,23 @@ func c12bare(sc *sim.Scenario, env *sim.Env) *sim.Violation {
 		}
 	}
 	var onpc map[uint32]func()
+	var forked CPUI // a snapshot taken from inside the hook, to be switched to after the current Step
+	switched := false
 	if sc.C("kind") == 2 && !hasIRQ {
 		onpc = map[uint32]func(){cbAddr: func() {
 			env.Yield("cb.pc")
 			pcEvents = append(pcEvents, pcev{stepNo, mem.Reads - readsAtStepStart})
+			if sc.C("forkinhook") != 0 && forked == nil && mc.busA != nil {
+				// the host takes a snapshot of the CPU from inside its hook (a save state at a
+				// breakpoint) and carries on with it once this instruction is done
+				if src, ok := cpu.(cpuA); ok {
+					c2 := &cpu65c816.CPU{}
+					if p, _ := sim.RecoverLib(func() { c2.InitFrom(src.c, mc.busA) }); !p {
+						forked = cpuA{c2}
+						st.Probe("cpu_forked_inside_its_hook")
+					}
+				}
+			}
 		}}
 		cpu.SetOnPC(onpc)
 	}
@@ -800,6 +816,7 @@ func c12bare(sc *sim.Scenario, env *sim.Env) *sim.Violation {
 					visits++
 				}
 				stepNo++
+				stoppedBefore := stopped
 				readsAtStepStart = mem.Reads
 				var cyc int
 				var flag bool
@@ -813,6 +830,7 @@ func c12bare(sc *sim.Scenario, env *sim.Env) *sim.Violation {
 				ra := cpu.Regs()
 				env.ObsInt(cyc)
 				env.ObsBool(flag)
+
 				if cyc < 1 {
 					return &sim.Violation{Oracle: "step_cycles_lt_1", Step: i, Msg: fmt.Sprintf("%s: Step at %06x (opcode %02x %s, M=%d X=%d E=%d D=%04x) reported %d cycles", cpu.Kind(), r.PCL(), opc, decodeTable[opc].Mn[0], r.M, r.X, r.E, r.RD, cyc)}
 				}
@@ -834,6 +852,13 @@ func c12bare(sc *sim.Scenario, env *sim.Env) *sim.Violation {
 					return &sim.Violation{Oracle: "stop_flag", Step: i, Msg: fmt.Sprintf("%s: Stopped field %v after opcode %02x; STP executed since the last Reset: %v", cpu.Kind(), ra.Stopped, opc, stopped)}
 				}
 				st.ProbeIf(stopped && opc != 0xDB, "step_while_stopped")
+				if forked != nil && !switched {
+					// from the next Step on the snapshot is the CPU in use: it stands at the hooked
+					// address, before the instruction that has just run on the original (so an STP
+					// that instruction may have been has not happened to it)
+					cpu, switched = forked, true
+					stopped = stoppedBefore
+				}
 			}
 		}
 		env.OpDone()
